@@ -223,6 +223,7 @@ func main() {
 	}
 	regKernel()
 	if tp := prog.ImportedPackage("time"); tp != nil {
+		tickerT = tp.Type("Ticker").Type()
 		timeT = tp.Type("Time").Type()
 	}
 	for _, p := range []string{"github.com/akrylysov/pogreb", "github.com/akrylysov/pogreb/fs", "github.com/akrylysov/pogreb/internal/hash"} {
